@@ -150,7 +150,7 @@ class RealClient(object):
         self.world = self
         self.phone = name
         self.generation = 0
-        self.probe_low, self.probe_top = probes.Probe("low"), probes.Probe("top")
+        self.probe_low, self.probe_top = probes.Probe("low", transparent_detached="up"), probes.Probe("top")
         layers = YowStackBuilder.getDefaultLayers()
         layers = (layers[0], self.probe_low) + layers[1:] + (self.app, self.probe_top)
         p = {"profile": self.profile, YowIqProtocolLayer.PROP_PING_INTERVAL: 0,
